@@ -178,8 +178,13 @@ def run(chk):
                                         ir.band_all(H.eq_sc(x, y) for x, y in zip(H.elems(b), H.elems(c))), key='partial_trace two-step != one-step',
                                         replay=('c17', lambda m, rho=rho, dims=dims, keep=keep, k2=k2: payload(m, {'rho': rho}, what='ptrace2', dims=list(dims), keep1=list(keep), keep2=list(k2))))
         # 2. Dicke basis: orthonormal, permutation invariant (ground, exact radicals); klist enumerates occupations once
-        for d in (2, 3):
-            for k in (1, 2, 3, 4) if d == 2 else (1, 2, 3):
+        # larger (copies, dimension) pairs - in particular d^k beyond 128 / 256 / 32768 (index arithmetic in narrow integer types) - get the basis
+        # claims only (orthonormal, permutation invariant, row count, klist); the index tensor is checked for the small pairs
+        small = [(k, d) for d in (2, 3) for k in ((1, 2, 3, 4) if d == 2 else (1, 2, 3))]
+        large = [(5, 2), (8, 2), (4, 3), (5, 3), (3, 4), (2, 12)] + ([] if quick else [(9, 2), (4, 4), (5, 4), (3, 6), (6, 3), (2, 16)])
+        for k, d in small + large:
+            if True:
+                light = (k, d) in large
                 chk.configurations += 1
                 B = numqi.dicke.get_dicke_basis(k, d)
                 Bp = A.plain(B) if isinstance(B, A.SymArray) else np.asarray(B, dtype=object)
@@ -203,6 +208,8 @@ def run(chk):
                 chk.add(f'get_dicke_basis({k},{d}) has dim(Sym^k) = C(k+d-1,d-1) rows', [], ir.bconst(nrow == math.comb(k + d - 1, d - 1) == numqi.dicke.get_dicke_number(k, d)),
                         key='dicke number', replay=rp)
                 # klist membership: a symbolic occupation tuple summing to k equals exactly one list element
+                if d > 6:
+                    continue
                 kl = numqi.dicke.get_dicke_klist(k, d)
                 occ = [S.bv_var(f'occ{d}_{k}_{i}', np.uint8) for i in range(d)]
                 tot = occ[0]
@@ -213,6 +220,8 @@ def run(chk):
                 exactly_one = ir.band(ir.bor_all(hits), ir.band_all(ir.bnot(ir.band(hits[i], hits[j])) for i in range(len(hits)) for j in range(i + 1, len(hits))))
                 chk.add(f'get_dicke_klist({k},{d}) lists every occupation tuple exactly once', pre, exactly_one, key='dicke klist', replay=('c17', {'what': 'klist', 'k': k, 'd': d}))
                 chk.add(f'reach klist({k},{d})', pre, ir.TRUE, kind='reach')
+                if light:
+                    continue
                 # return_tensor=True equals the tensor assembled from the definition B_rsab = <D_a| (|s><r| (x) I) |D_b>
                 Tn = numqi.dicke.get_partial_trace_ABk_to_AB_index(k, d, return_tensor=True)
                 Tp = A.plain(Tn) if isinstance(Tn, A.SymArray) else np.asarray(Tn, dtype=object)
